@@ -196,6 +196,10 @@ def build_mt(config="tsan"):
     return build_engine(config, "mt", ["mt.c", "msg.c"])
 
 
+def build_rt(config="asan"):
+    return build_engine(config, "rt", ["rt.c", "msg.c"])
+
+
 def build_cxxio(config="asan"):
     """C16 C++ pass: reproc.cpp + the drain/run templates against the real (interposed) C library."""
     cfg = CONFIGS[config]
